@@ -45,8 +45,7 @@ def latest_restart_with(spec, it, rl):
     best = None
     for r, rs in enumerate(spec['restarts']):
         its = rs['its'].get(rl, [])
-        if its and min(rs['its'][0]) <= it <= max(rs['its'][0]) \
-                and it in its:
+        if it in its:
             best = rs.get('number', r)
     return best
 
@@ -287,6 +286,10 @@ def build_tasks(tier):
         4: [{'its': {0: r0(0, 2, 4, 6, 8), 1: r0(0, 1, 2, 3, 4, 5, 6, 7, 8)},
              'boxes': bx},
             {'its': {0: r0(2, 4), 1: r0(2, 3, 4)}, 'boxes': bx}],
+        # the finer level is written more often and beyond the last
+        # base-level output of each restart
+        5: [{'its': {0: r0(0, 2, 4), 1: r0(0, 1, 2, 3, 4, 5)}, 'boxes': bx},
+            {'its': {0: r0(4, 6, 8), 1: r0(4, 5, 6, 7, 8, 9)}, 'boxes': bx}],
     }
     var_reqs = [['alpha'], ['betaup3'], ['betax', 'gxy'], ['gammadown3'],
                 ['gxx', 'alpha', 'rho0'], ['Ktrace', 'velup3']]
@@ -294,7 +297,7 @@ def build_tasks(tier):
                 r0(2, 6, 4), r0(4, 0, 2)]
     it_reqs1 = [r0(1), r0(4, 3), r0(5, 4, 4, 0), r0(2, 0, 1, 4, 3)]
     for (grouped, proc), nres, split in itertools.product(
-            LAYOUTS, (1, 2, 3, 4), (False, True)):
+            LAYOUTS, (1, 2, 3, 4, 5), (False, True)):
         restarts = rsets[nres]
         spec = base_spec('sim', grouped, proc, 2, shapes, restarts,
                          variables=etgen.ALLVARS)
@@ -303,8 +306,12 @@ def build_tasks(tier):
         for rv in var_reqs:
             for ri in it_reqs0:
                 reqs.append((rv, ri, 0, -1, ex))
-            for ri in it_reqs1:
+            for ri in it_reqs1 + ([r0(5), r0(9, 4, 5), r0(8, 9)]
+                                  if nres == 5 else []):
                 reqs.append((rv, ri, 1, -1, ex))
+            if nres == 5:
+                reqs.append((rv, r0(5, 4), 1, 0, ex))
+                reqs.append((rv, r0(9, 5), 1, 1, ex))
             for r in range(len(restarts)):
                 reqs.append((rv, r0(4, 2), 0, r, ex))
         tasks.append((spec, reqs, 'sorted', False,
